@@ -299,6 +299,45 @@ impl Scenario for Bitrot {
                 return Verdict::Skip(format!("intact image does not read back ({:?} {:?}): C03/C15/C16 territory", r.open, r.err));
             }
         }
+        // a history on ONE archive handle: the entry read to the end with the right password, then opened again
+        // with wrong passwords that pass the one-byte check. What the second and third open decode differs from
+        // what the first one decoded although the bytes at rest are the same - every completed read is still owed
+        // the checksum (nothing an earlier open established may stand in for it).
+        if let Some(Enc::ZipCrypto { pw: right, infozip }) = &ent.enc {
+            let expect = if *infozip { (ent.dos.1 >> 8) as u8 } else { (info.crc >> 24) as u8 };
+            let blob = &img0[info.data_start as usize..(info.data_start + info.csize.min(12)) as usize];
+            if blob.len() == 12 {
+                let hist = guard(|| -> Result<(), String> {
+                    let mut ar = ZipArchive::new(SimDisk::new(shared_from(&img0), Policy::Pure)).map_err(|e| zerr_pub(&e))?;
+                    for round in 0..4u64 {
+                        let pwd: Vec<u8> = if round == 0 {
+                            right.0.clone()
+                        } else {
+                            match wrong_password(blob, &right.0, expect, true, case_hash ^ round) {
+                                Some(w) => w,
+                                None => continue,
+                            }
+                        };
+                        let mut f = match ar.by_index_decrypt(t, &pwd) {
+                            Ok(Ok(f)) => f,
+                            _ => continue,
+                        };
+                        let declared = f.crc32();
+                        let (data, err, _) = read_all(&mut f, &c.bufs, 64 << 20);
+                        if err.is_none() && !read_gave_up() && crate::content::crc32(&data) != declared {
+                            return Err(format!("open #{round} of the entry on one archive handle (password {:02x?}): the read completed with {} bytes whose CRC is {:08x}, declared {:08x}", pwd, data.len(), crate::content::crc32(&data), declared));
+                        }
+                    }
+                    Ok(())
+                });
+                ctx.sub_evals += 1;
+                match hist {
+                    Err(v) => return v,
+                    Ok(Err(e)) if e.contains("the read completed") => return viol("C04/completed-read-with-wrong-crc/reopened", e),
+                    _ => ctx.probe("entry_reopened_with_colliding_passwords_on_one_handle"),
+                }
+            }
+        }
         let res: Result<(), Verdict> = (|| {
             match &c.plan {
                 RotPlan::AllFlips { range } => {
@@ -572,6 +611,23 @@ impl Scenario for AesSc {
         };
         e.enc = Some(Enc::Aes { pw: Hex(pw), strength: r.range(1, 3) as u8, version: r.range(1, 2) as u8, salt_seed: r.next_u64() });
         e.dos = (r.below(65536) as u16, r.below(65536) as u16);
+        {
+            // where the AES record sits among the entry's other extra records, and which of the sizes / the offset
+            // it has to pick up from a ZIP64 record placed before or after it (0xFFFFFFFF escapes on a small entry)
+            let mut rz = Rng::derive(s, "aes-z64");
+            if rz.chance(1, 4) {
+                e.z64_central = rz.range(1, 7) as u8;
+                e.z64_local = rz.chance(1, 2);
+                e.z64_first = rz.chance(1, 2);
+            }
+            if rz.chance(1, 5) {
+                let rec = real_world_records(&mut rz, &e.name.0, &[], false);
+                e.extra_central = Hex(rec.clone());
+                if rz.chance(1, 2) {
+                    e.extra_local = Hex(rec);
+                }
+            }
+        }
         let mut l = Layout::default();
         // plain neighbours
         let before = r.below(2);
